@@ -610,13 +610,16 @@ func doProof(o *out.Out, r *gen.Rand, step int, s int, st *slotState, k []byte, 
 			al[i] = mb
 			in += fmt.Sprintf(" x%d:%d:%d", i, pos, x)
 			obs += " " + check(fmt.Sprintf("x%d:%d:%d", i, pos, x), al)
-			// robustness only (not part of the compared observables): the altered blob stored
-			// under the ORIGINAL key (a database that lies) must not crash the verifier
+			// the altered blob stored under the ORIGINAL key (a database that lies): the answer is
+			// unconstrained by the property, but the verifier must not crash (oracle) and the model's
+			// decoder must agree with the implementation's (compared observable "L...")
 			ldb := proofDB(pl.blobs)
 			ldb.Put(crypto.Keccak256(pl.blobs[i]), mb)
-			if _, _, p3 := verifyClass(root, pk, ldb); p3 {
+			c3, _, p3 := verifyClass(root, pk, ldb)
+			if p3 {
 				o.Fail(step, "verify-panic", fmt.Sprintf("VerifyProof panicked on altered node x%d:%d:%d stored under the original hash", i, pos, x))
 			}
+			obs += " L" + c3
 		}
 		// truncation by one byte
 		tb := common.CopyBytes(pl.blobs[i][:len(pl.blobs[i])-1])
@@ -803,13 +806,193 @@ func runDerive(o *out.Out, r *gen.Rand, c int) {
 	o.Mark(fmt.Sprintf("D/%d", n))
 }
 
+
+// ---------------------------------------------------------------- malformed / crafted proof stream
+
+func rlpStr(r *gen.Rand, b []byte) []byte {
+	if r != nil && r.Chance(1, 25) { // non-canonical encodings
+		switch r.Intn(3) {
+		case 0:
+			if len(b) == 1 && b[0] < 0x80 {
+				return []byte{0x81, b[0]}
+			}
+		case 1:
+			if len(b) < 56 {
+				return append([]byte{0xb8, byte(len(b))}, b...)
+			}
+		default:
+			return append([]byte{0xb9, 0x00, byte(len(b))}, b...)
+		}
+	}
+	if len(b) == 1 && b[0] < 0x80 {
+		return []byte{b[0]}
+	}
+	if len(b) < 56 {
+		return append([]byte{0x80 + byte(len(b))}, b...)
+	}
+	return append([]byte{0xb8, byte(len(b))}, b...)
+}
+
+func rlpList(r *gen.Rand, items ...[]byte) []byte {
+	var p []byte
+	for _, it := range items {
+		p = append(p, it...)
+	}
+	n := len(p)
+	if r != nil && r.Chance(1, 30) {
+		n += r.Intn(3) - 1 // wrong payload length
+		if n < 0 {
+			n = 0
+		}
+	}
+	if n < 56 {
+		return append([]byte{0xc0 + byte(n)}, p...)
+	}
+	if n < 256 {
+		return append([]byte{0xf8, byte(n)}, p...)
+	}
+	return append([]byte{0xf9, byte(n >> 8), byte(n)}, p...)
+}
+
+func compactKey(nibbles []byte, term bool) []byte {
+	flag := byte(0)
+	if term {
+		flag = 2
+	}
+	var out []byte
+	if len(nibbles)%2 == 1 {
+		out = append(out, (flag+1)<<4|nibbles[0])
+		nibbles = nibbles[1:]
+	} else {
+		out = append(out, flag<<4)
+	}
+	for i := 0; i+1 < len(nibbles); i += 2 {
+		out = append(out, nibbles[i]<<4|nibbles[i+1])
+	}
+	return out
+}
+
+// craftNode builds a node blob for the remaining key nibbles; further blobs it references by hash are
+// appended to *extra.  Nothing guarantees validity: embedded children may be oversized, counts wrong, ...
+func craftNode(r *gen.Rand, rem []byte, depth int, extra *[][]byte) []byte {
+	child := func(rest []byte) []byte { // a reference to the subtree for rest
+		switch r.Pick(5, 5, 1, 1, 1, 1) {
+		case 0: // by hash
+			b := craftNode(r, rest, depth+1, extra)
+			*extra = append(*extra, b)
+			return rlpStr(r, crypto.Keccak256(b))
+		case 1: // embedded (whatever its size)
+			if depth > 3 {
+				return []byte{0x80}
+			}
+			return craftNode(r, rest, depth+1, extra)
+		case 2:
+			return rlpStr(r, r.Bytes(31))
+		case 3:
+			return rlpStr(r, r.Bytes(33))
+		case 4:
+			return []byte{byte(r.Intn(0x80))}
+		default:
+			return []byte{0x80}
+		}
+	}
+	val := func() []byte {
+		switch r.Pick(6, 1, 1) {
+		case 0:
+			return rlpStr(r, genValue(r))
+		case 1:
+			return []byte{0x80}
+		default:
+			return rlpList(r, rlpStr(r, r.Bytes(2)))
+		}
+	}
+	switch r.Pick(6, 5, 6, 1, 1) {
+	case 0: // leaf
+		k := rem
+		if r.Chance(1, 5) && len(k) > 0 {
+			k = k[:r.Intn(len(k))]
+		}
+		ck := compactKey(k, true)
+		if r.Chance(1, 10) {
+			ck[0] |= byte(r.Intn(16)) << 4 // odd flag nibbles (4..15)
+		}
+		return rlpList(r, rlpStr(r, ck), val())
+	case 1: // extension
+		n := 0
+		if len(rem) > 0 {
+			n = r.Intn(len(rem) + 1)
+		}
+		ck := compactKey(rem[:n], false)
+		if r.Chance(1, 12) {
+			ck = nil // empty compact key
+		}
+		return rlpList(r, rlpStr(r, ck), child(rem[n:]))
+	case 2: // branch
+		items := make([][]byte, 17)
+		for i := 0; i < 16; i++ {
+			switch r.Pick(8, 2, 1, 1) {
+			case 0:
+				items[i] = []byte{0x80}
+			case 1:
+				items[i] = rlpStr(r, r.Bytes(32))
+			case 2:
+				items[i] = rlpList(r, rlpStr(r, compactKey([]byte{1}, true)), rlpStr(r, r.Bytes(1+r.Intn(40))))
+			default:
+				items[i] = rlpStr(r, r.Bytes(r.Intn(34)))
+			}
+		}
+		items[16] = val()
+		if len(rem) > 0 {
+			items[rem[0]] = child(rem[1:])
+		}
+		return rlpList(r, items...)
+	case 3: // wrong number of items
+		n := []int{0, 1, 3, 16, 18}[r.Intn(5)]
+		items := make([][]byte, n)
+		for i := range items {
+			items[i] = []byte{0x80}
+		}
+		return rlpList(r, items...)
+	default: // not a list
+		return rlpStr(r, r.Bytes(r.Intn(40)))
+	}
+}
+
+func runCrafted(o *out.Out, r *gen.Rand, c int) {
+	o.Case(c, fmt.Sprintf("CASE %d X", c))
+	key := make([]byte, r.Intn(4))
+	for i := range key {
+		key[i] = alpha[r.Intn(5)]
+	}
+	var nib []byte
+	for _, b := range key {
+		nib = append(nib, b>>4, b&15)
+	}
+	nib = append(nib, 16)
+	var extra [][]byte
+	root := craftNode(r, nib, 0, &extra)
+	blobs := append([][]byte{root}, extra...)
+	cls, _, pan := verifyClass(common.BytesToHash(crypto.Keccak256(root)), key, proofDB(blobs))
+	if pan {
+		// ORACLE (robustness): no proof, however malformed, may crash the verifier
+		o.Fail(0, "verify-panic", "VerifyProof panicked on a crafted proof")
+	}
+	line := "X " + hx(key)
+	for _, b := range blobs {
+		line += " " + hx(b)
+	}
+	o.Count("crafted." + cls[:1])
+	o.Op(line, cls)
+	o.Mark(fmt.Sprintf("X/%d/%d/%s", len(key), len(blobs), cls[:1]))
+}
+
 func main() {
 	out.WriteFacts(func() string {
 		return fmt.Sprintf("From Coq Require Import List NArith.\nImport ListNotations.\n(* types.EmptyRootHash *)\nDefinition empty_root_hash : list N := [%s]%%N.\n",
 			nlist(types.EmptyRootHash.Bytes()))
 	})
 	o := out.Open()
-	o.Rule = "a case is one trie history (Update/Delete/Get/Hash/Commit/Reopen/Copy/Prove over a key universe with shared prefixes, 3 slots sharing one database), one StackTrie run, or one DeriveSha run; non-trivial = at least 3 operations or 2 keys; distinct by (family, universe size, first 24 op kinds) / (kind, size, outcome)"
+	o.Rule = "a case is one trie history (Update/Delete/Get/Hash/Commit/Reopen/Copy/Prove over a key universe with shared prefixes, 3 slots sharing one database), one StackTrie run, one DeriveSha run, or one crafted (possibly malformed) proof; non-trivial = at least 3 operations or 2 keys; distinct by (family, universe size, first 24 op kinds) / (kind, size, outcome)"
 	// ORACLE (constant): the empty root is keccak(rlp(""))
 	if !bytes.Equal(types.EmptyRootHash.Bytes(), crypto.Keccak256([]byte{0x80})) {
 		o.Case(-1, "CASE -1 X")
@@ -821,13 +1004,15 @@ func main() {
 			continue
 		}
 		r := root.Fork(uint64(c))
-		switch r.Pick(16, 3, 1) {
+		switch r.Pick(16, 3, 1, 4) {
 		case 0:
 			runHistory(o, r, c)
 		case 1:
 			runStack(o, r, c)
-		default:
+		case 2:
 			runDerive(o, r, c)
+		default:
+			runCrafted(o, r, c)
 		}
 	}
 	o.Close()
